@@ -259,6 +259,9 @@ def oracle(ctx, deep):
         if meta["n"] > 0 and idx >= meta["n"]:
             ctx.violations.append({"finding_key": "C01-range", "what": "draw returned an index >= n", "n": meta["n"],
                                    "words": meta.get("words"), "index": idx})
+    draw_structure(ctx)
+    if ctx.violations:
+        return
     if deep:
         todo = (SWEEP_BOUNDS + POW2_BOUNDS) if ctx.tier == "thorough" or ctx.mismatches else POW2_BOUNDS[:2] + SWEEP_BOUNDS[:7]
     else:
@@ -274,6 +277,46 @@ def oracle(ctx, deep):
                 break
 
 
+def draw_structure(ctx):
+    """Model-independent rules on the fault-free draw cases of the run, from the statement alone: a draw uses whole 32-bit words
+    (the bytes consumed are a positive multiple of 4); after rejected words the decision is a fresh draw on the next whole word
+    (the same tape without the rejected words gives the same alternative, consuming one word); how the source delivers its bytes
+    (1-4 per read) does not matter."""
+    follow = []
+    for meta, a, b in getattr(ctx, "draw_results", []):
+        if a is None or meta["kind"] in ("fault", "zero") or not a.startswith("ok "):
+            continue
+        got = a.split(" stdout=")[0]
+        idx = int(got.split(" ")[1])
+        consumed = int(got.split("consumed=")[1])
+        n, words = meta["n"], meta["words"]
+        base = {"n": n, "words": words[:8], "chunking": list(meta.get("chunking", (4,))), "observed": got,
+                "line": "draw %d %s" % (n, core.src_tokens(chunked(words, meta["chunking"]) if meta.get("chunking") else core.flat_tape(words)))}
+        if consumed <= 0 or consumed % 4 != 0 or consumed > 4 * len(words):
+            ctx.violations.append(dict(base, finding_key="C01-words", what="the draw consumed %d bytes: not a whole number of 32-bit raw words" % consumed))
+            return
+        k = consumed // 4
+        if k > 1:
+            follow.append((dict(base), "draw %d %s" % (n, core.src_tokens(core.flat_tape(words[k - 1:]))), "ok %d consumed=4" % idx, "restart"))
+        if meta.get("chunking") and tuple(meta["chunking"]) != (4,):
+            follow.append((dict(base), "draw %d %s" % (n, core.src_tokens(core.flat_tape(words))), got, "chunking"))
+    if not follow:
+        return
+    res, _ = core.run_impl(["f%d %s" % (i, f[1]) for i, f in enumerate(follow)])
+    for i, (base, line, want, why) in enumerate(follow):
+        g = (res.get("f%d" % i) or "").split(" stdout=")[0]
+        ctx.evaluations += 1
+        ctx.count("draw_followups_" + why)
+        if g != want:
+            if why == "restart":
+                what = ("after %d rejected raw word(s) the draw returned %s, but the same draw on the remaining tape alone returns %r: the decision after a "
+                        "rejection is not a fresh draw on the next whole word" % (int(base["observed"].split("consumed=")[1]) // 4 - 1, base["observed"], g))
+            else:
+                what = "the same bytes delivered %s per read gave %s, delivered 4 per read %r" % (base["chunking"], base["observed"], g)
+            ctx.violations.append(dict(base, finding_key="C01-" + why, what=what, second_line=line))
+            return
+
+
 def replay(v):
     n = v["n"]
     if v.get("replay_family") == "sweep2":
@@ -286,7 +329,11 @@ def replay(v):
         print("bound n=%d: min count %d (index %d), max count %d (index %d), rejected %d, out-of-range %d" % (
             n, min(counts), counts.index(min(counts)), max(counts), counts.index(max(counts)), rejected, oor))
         return 1 if (min(counts) != max(counts) or oor or 2 * sum(counts) <= W) else 0
-    line = "r draw %d %s" % (n, core.src_tokens(core.flat_tape(v.get("words", [0]))))
+    line = "r " + v["line"] if v.get("line") else "r draw %d %s" % (n, core.src_tokens(core.flat_tape(v.get("words", [0]))))
     r, _ = core.run_impl([line])
     print(line, "->", r)
+    if v.get("second_line"):
+        r2, _ = core.run_impl(["r " + v["second_line"]])
+        print("r " + v["second_line"], "->", r2)
+    print("violation:", v.get("what"))
     return 1
